@@ -23,7 +23,8 @@ CHECKS = [
         "Matryoshka._calc_target_power is zero or inside the system inclusion bounds and outside the exclusion zone: "
         "contracts on the three _bounds functions and a loop invariant for the priority sweep (which also visits the proposals in "
         "the strict order of Proposal.__lt__: history-freedom), the bucket algebra of calculate_target_power, and expiry "
-        "(drop_old_proposals removes exactly the proposals older than the maximum age), discharged by z3.",
+        "(drop_old_proposals removes exactly the proposals older than the maximum age), discharged by z3."
+        "A bounded native explorer on the real objects runs alongside as a second, structure-independent line of detection (labelled bounded in the evidence; not part of the proof, never counted in obligations/discharged).",
         REALS + "; uniqueness of a strictly ordered arrangement of a finite set assumed (mathematical fact)",
         "contract-based deductive verification (AST->VC generator, z3)", "DESIGN.md 3 (C03)"),
     chk("C04", "proof",
@@ -65,7 +66,8 @@ CHECKS = [
         "Deductive proof (integer microsecond arithmetic) that the first window end is after creation, at most two periods later and on "
         "the align_to grid, and - by a loop invariant over all ticks of Resampler.resample - that _window_end advances by exactly one "
         "period per tick and every series is asked exactly once per tick for exactly that window end, independent of the clock, "
-        "of timer lateness and of failing sinks.",
+        "of timer lateness and of failing sinks."
+        "A bounded native explorer on the real objects runs alongside as a second, structure-independent line of detection (labelled bounded in the evidence; not part of the proof, never counted in obligations/discharged).",
         "Timer(TriggerAllMissed) modelled as an arbitrary stream of ticks (one per elapsed period: library behaviour, assumed); series are "
         "scripted collaborators recording the timestamps requested; up to two series (structural bound), unbounded ticks; __init__'s "
         "timer alignment hack and add/remove_timeseries not under contract; a bounded native run of the same contract on the real "
@@ -84,7 +86,8 @@ CHECKS = [
         "Deductive proof for any set of batteries iterated in arbitrary order: loop invariants tie SoCCalculator / CapacityCalculator's "
         "running sums to ghost recurrences written from the documented formulas; result None iff no working battery has all "
         "metrics; SoC in [0, 100] and equal to used/total; lemmas (one by induction over the batteries): rescaled SoC bounded "
-        "and monotone, pool SoC non-decreasing in every battery's SoC, weights scale linearly with capacity.",
+        "and monotone, pool SoC non-decreasing in every battery's SoC, weights scale linearly with capacity."
+        "A bounded native explorer on the real objects runs alongside as a second, structure-independent line of detection (labelled bounded in the evidence; not part of the proof, never counted in obligations/discharged).",
         "floats as reals (math.isclose by its definition); capacity >= 0, lower <= upper limit; scale invariance of the quotient only "
         "per battery; metric fetcher's NaN dropping and cache eviction not under contract",
         "contract-based deductive verification: loop invariants + ghost recurrences + induction lemmas (z3, NRA)", "DESIGN.md 3 (C18)"),
@@ -101,7 +104,8 @@ CHECKS = [
         "registered task at all (a finished task whose done-callback is still pending counts as busy), a completion starts the parked "
         "one (preconditions of _process_request, obligations at both call sites); arrivals for a busy group are parked and the "
         "parked request is always the latest (loop invariant over the request stream with a ghost map); at completion - normal or "
-        "exceptional - the parked request starts at once; other groups are never touched.",
+        "exceptional - the parked request starts at once; other groups are never touched."
+        "A bounded native explorer on the real objects runs alongside as a second, structure-independent line of detection (labelled bounded in the evidence; not part of the proof, never counted in obligations/discharged).",
         "asyncio.create_task / done-callback behaviour assumed (callback exactly once after completion); two disjoint groups; "
         "scripted component manager; liveness reduced to safety + 'every distribution task finishes'; requests compared by content",
         "contract-based deductive verification of atomic steps with class invariant and ghost state (z3)", "DESIGN.md 3 (C14)"),
@@ -117,7 +121,8 @@ CHECKS = [
         "Deductive proof of the restart policy (loop invariant over any sequence of outcomes of the run logic: re-invoked after an "
         "Exception while the limit allows, never after return / cancellation / other BaseException), of start()'s idempotence, "
         "cancel() and stop() - stop() under interference at its awaits (a task added meanwhile). One genuine defect is recorded as "
-        "a known finding (stop() returns while a task added during the wait is still running) with a native witness.",
+        "a known finding (stop() returns while a task added during the wait is still running) with a native witness."
+        "A bounded native explorer on the real objects runs alongside as a second, structure-independent line of detection (labelled bounded in the evidence; not part of the proof, never counted in obligations/discharged).",
         "asyncio task model assumed (incl. wait(FIRST_COMPLETED)); run logic is a scripted collaborator; interference bounded to one added "
         "task; run(*actors) for two actors; the restart delay is the actor's own RESTART_DELAY; wait() alone, cancel_and_await not under contract",
         "contract-based deductive verification with loop invariant, exception-outcome model and rely (interference) at awaits (z3)",
@@ -135,7 +140,8 @@ CHECKS = [
         "timestamps: the steps read exactly the samples stamped with the emitted timestamp; the first run lands on the latest first "
         "timestamp without reading beyond it; afterwards timestamps advance by one step, none skipped or repeated (class invariant "
         "'aligned'). FormulaEngine3Phase._run never mixes timestamps when its phase streams start aligned; the unaligned start is a "
-        "recorded known finding with a native witness.",
+        "recorded known finding with a native witness."
+        "A bounded native explorer on the real objects runs alongside as a second, structure-independent line of detection (labelled bounded in the evidence; not part of the proof, never counted in obligations/discharged).",
         "stream/channel model assumed (per-stream in-order delivery of first + k*step; interleavings irrelevant under it); two input "
         "streams (structural bound); FormulaEngine._run not under contract",
         "contract-based deductive verification with class invariant over scripted streams (z3)", "DESIGN.md 3 (C06)"),
